@@ -95,12 +95,13 @@ def run(c) -> CaseResult:
         def grad_clause(kind, k, a, b):
             if bitequal(a, b):
                 return False
-            if a is not None and b is not None and a.shape == b.shape and fan >= 3 and \
+            if a is not None and b is not None and a.shape == b.shape and \
                     bool(((a - b).abs() <= 4e-6 * max(1e-30, float(a.abs().max()))).all()):
-                # a tensor with >= 3 consumers: inserting autograd nodes changes the order in which its gradient
-                # contributions are accumulated (float addition is not associative) - last-ulp differences
-                res.fail("C18.observational.accumulation-order-ulp", f"gradient of {kind} {k} differs in the last ulps with tracking on "
-                         f"(max {float((a - b).abs().max()):.3g} on {float(a.abs().max()):.3g}; a tensor of the graph has {fan} gradient contributions)\n{src}")
+                # last-ulp differences: the inserted autograd nodes change the order in which >= 3 gradient contributions to one
+                # tensor are accumulated, and the copies they make turn expanded / strided gradients into contiguous ones, which
+                # selects other matmul kernels
+                res.fail("C18.observational.last-ulp", f"gradient of {kind} {k} differs in the last ulps with tracking on "
+                         f"(max {float((a - b).abs().max()):.3g} on {float(a.abs().max()):.3g}; largest gradient fan-out in the graph {fan})\n{src}")
             else:
                 res.fail(f"C18.observational.{kind}-grad", f"gradient of {kind} {k} differs with tracking on\n{src}")
             return True
@@ -181,20 +182,20 @@ def run_analyse(c) -> CaseResult:
     fan = dsl.grad_fanout(prog)
 
     def ulp_only(a, b):
-        return a is not None and b is not None and a.shape == b.shape and fan >= 3 and \
+        return a is not None and b is not None and a.shape == b.shape and \
             bool(((a - b).abs() <= 4e-6 * max(1e-30, float(a.abs().max()))).all())
     for n, p in m.named_parameters():
         gp = None if p.grad is None else p.grad
         if not bitequal(pg0[n], gp):
             if ulp_only(pg0[n], gp):
-                res.fail("C18.observational.accumulation-order-ulp", f"analyse_module: gradient of parameter {n} differs in the last ulps ({fan} gradient contributions to one tensor)\n{src}")
+                res.fail("C18.observational.last-ulp", f"analyse_module: gradient of parameter {n} differs in the last ulps ({fan} gradient contributions to one tensor)\n{src}")
             else:
                 res.fail("C18.analyse.param-grad", f"parameter {n} gradient after analyse_module differs from a plain forward/backward\n{src}")
             break
     for k, t in zip(order, ins):
         if t.is_floating_point() and not bitequal(ig0[k], t.grad):
             if ulp_only(ig0[k], t.grad):
-                res.fail("C18.observational.accumulation-order-ulp", f"analyse_module: gradient of input {k} differs in the last ulps ({fan} gradient contributions to one tensor)\n{src}")
+                res.fail("C18.observational.last-ulp", f"analyse_module: gradient of input {k} differs in the last ulps ({fan} gradient contributions to one tensor)\n{src}")
             else:
                 res.fail("C18.analyse.input-grad", f"input {k} gradient after analyse_module differs from a plain forward/backward\n{src}")
             break
